@@ -96,14 +96,24 @@ func VerifC19Diag() {
 		case 0: // bad character in a change name
 			b.str("@")
 			b.spaces(sp)
-			b.str("ab")
+			shape := nd.Choose("nameshape", 3) // ab<x>c | <x> alone | <x>bc
+			if shape == 0 {
+				b.str("ab")
+			}
 			fl, fc = b.line, b.col
 			x := nd.Byte("badch")
 			nd.Assume(x < 0x80)
 			nd.Assume(x > 0x20) // not a space or control character
 			nd.Assume(nd.Not(nd.Or(nd.Or(nd.And(x >= 'a', x <= 'z'), nd.And(x >= 'A', x <= 'Z')), nd.Or(nd.And(x >= '0', x <= '9'), x == '_'))))
 			b.sym(x)
-			b.str("c @\n")
+			switch shape {
+			case 0:
+				b.str("c @\n")
+			case 1:
+				b.str(" @\n")
+			default:
+				b.str("bc @\n")
+			}
 		case 1: // a line starting with '@' that is no header
 			fl, fc = b.line, b.col
 			b.str("@x")
